@@ -255,9 +255,9 @@ H3 = Tuple[int, int, int]
 
 def c19_fa(subject: int, ops: H3, k: int) -> bool:
     """
+    pre: pinned(subject=subject, k=k, o0=ops[0], o1=ops[1])
     pre: 0 <= subject < 8 and 1 <= k <= 3
     pre: all(0 <= ops[i] < NFAOPS and (i < k or ops[i] == 0) for i in range(3))
-    pre: pinned(subject=subject, k=k, o0=ops[0], o1=ops[1])
     post: _
     """
     raw = (subject, ops, k)
@@ -320,9 +320,9 @@ def rx_battery(r):
 
 def c19_regex(subject: int, ops: H3, k: int) -> bool:
     """
+    pre: pinned(subject=subject, k=k, o0=ops[0], o1=ops[1])
     pre: 0 <= subject < 5 and 1 <= k <= 3
     pre: all(0 <= ops[i] < NRXOPS and (i < k or ops[i] == 0) for i in range(3))
-    pre: pinned(subject=subject, k=k, o0=ops[0], o1=ops[1])
     post: _
     """
     raw = (subject, ops, k)
@@ -425,9 +425,9 @@ def cfg_battery(g):
 
 def c19_cfg(subject: int, ops: H3, k: int) -> bool:
     """
+    pre: pinned(subject=subject, k=k, o0=ops[0], o1=ops[1])
     pre: 0 <= subject < 8 and 1 <= k <= 3
     pre: all(0 <= ops[i] < NCFGOPS and (i < k or ops[i] == 0) for i in range(3))
-    pre: pinned(subject=subject, k=k, o0=ops[0], o1=ops[1])
     post: _
     """
     raw = (subject, ops, k)
@@ -492,9 +492,9 @@ def pda_battery(p):
 
 def c19_pda(subject: int, ops: H3, k: int) -> bool:
     """
+    pre: pinned(subject=subject, k=k, o0=ops[0], o1=ops[1])
     pre: 0 <= subject < 3 and 1 <= k <= 3
     pre: all(0 <= ops[i] < NPDAOPS and (i < k or ops[i] == 0) for i in range(3))
-    pre: pinned(subject=subject, k=k, o0=ops[0], o1=ops[1])
     post: _
     """
     raw = (subject, ops, k)
@@ -511,12 +511,11 @@ NPDAOPS = len(PDA_OPS)
 
 def _sh(nsub, nops):
     def shards(tier):
+        base = product_pins(subject=list(range(nsub)), k=[1, 2])
         if tier == "quick":
-            return product_pins(subject=list(range(nsub)), k=[1]) + \
-                product_pins(subject=list(range(nsub)), k=[2], o0=list(range(nops)))
-        return product_pins(subject=list(range(nsub)), k=[1]) + \
-            product_pins(subject=list(range(nsub)), k=[2], o0=list(range(nops))) + \
-            product_pins(subject=list(range(min(nsub, 3))), k=[3], o0=list(range(nops)), o1=list(range(0, nops, 2)))
+            return base
+        return base + product_pins(subject=list(range(min(nsub, 3))), k=[3], o0=list(range(nops)),
+                                   o1=list(range(0, nops, 2)))
     return shards
 
 
